@@ -223,6 +223,11 @@ static void do_bnd(std::ostream &o, OracleOut &out, const char *kn, bool unsafe,
     int guard = 0;
     while (it.valid() && guard++ < CAP) { vals.push_back((*it).idx()); ++it; }
     o << "BI " << kn << " fwd : " << ints(vals) << " | " << eobs(it) << "\n";
+    if (b.valid()) {   // the copying forms (rules as for the walks: + only on a valid iterator, - only with a live entity)
+        It p1 = b + 1;
+        o << "BI " << kn << " arith : " << eobs(p1) << " " << (has_live ? eobs(p1 - 1) : std::string("s")) << "\n";
+        if (g_oracle && check && has_inc && p1.valid() && !((p1 - 1) == b)) out.fail("C05", std::string("boundary ") + kn + " iterator: (it + 1) - 1 differs from it");
+    }
     if (g_oracle && check) {
         if (has_inc && vals != expect) out.fail("C01", std::string("boundary ") + kn + " iterator yields " + vstr(vals) + ", brute force says " + vstr(expect));
         if (expect.empty() && b.valid()) out.fail("C05", std::string("boundary ") + kn + " iterator: nothing to visit but valid at construction");
